@@ -124,6 +124,7 @@ func main() {
 		fs.BoolVar(&o.HashOnly, "hash", false, "")
 		fs.IntVar(&o.Shard, "shard", 0, "")
 		fs.StringVar(&o.Journal, "journal", "", "")
+		fs.BoolVar(&o.CountOnly, "count", false, "")
 		fs.Parse(os.Args[2:])
 		os.Exit(runner.Worker(o))
 	case "exec-tape":
